@@ -80,12 +80,22 @@ func eval(c Case) (v evid.Verdict, trivial bool) {
 		}
 	case "key":
 		key, _ = hex.DecodeString(c.Extra)
+	case "key-inplace":
+		// the caller decrypts the genuine message, then re-uses the SAME key buffer for another key (overwritten in
+		// place) and is offered the old ciphertext again: it must be refused like under any other unrelated key
+		buf := append([]byte{}, key...)
+		if got, err := crypto.DecryptMessage(ct, types.EncryptionKey{KeyType: et, KeyValue: buf}, usage); err != nil {
+			return evid.Fail(fmt.Sprintf("control:etype%d", c.EType), "genuine ciphertext not decrypted: %v (%x)", err, got), false
+		}
+		other, _ := hex.DecodeString(c.Extra)
+		copy(buf, other)
+		key = buf
 	case "etype":
 		et = int32(c.A)
 	default:
 		return evid.Fail("harness", "bad tamper %q", c.Tamper), false
 	}
-	if c.Tamper != "none" && c.Tamper != "usage" && c.Tamper != "key" && c.Tamper != "etype" && bytes.Equal(pres, ct) {
+	if c.Tamper != "none" && c.Tamper != "usage" && c.Tamper != "key" && c.Tamper != "key-inplace" && c.Tamper != "etype" && bytes.Equal(pres, ct) {
 		return evid.Pass(), true
 	}
 	ek := types.EncryptionKey{KeyType: et, KeyValue: key}
@@ -164,7 +174,7 @@ func TestProp(t *testing.T) {
 		c.Plain = hex.EncodeToString(kgen.Bytes(t, "plain", n))
 		c.Conf = hex.EncodeToString(kgen.Bytes(t, "conf", ref.ConfounderLen(et)))
 		clen := ref.EncryptedLen(et, n)
-		c.Tamper = rapid.SampledFrom([]string{"bitflip", "truncate", "append", "swap", "usage", "key", "etype", "none"}).Draw(t, "tamper")
+		c.Tamper = rapid.SampledFrom([]string{"bitflip", "truncate", "append", "swap", "usage", "key", "key-inplace", "etype", "none"}).Draw(t, "tamper")
 		switch c.Tamper {
 		case "bitflip":
 			c.A = rapid.IntRange(0, clen*8-1).Draw(t, "bit")
@@ -177,7 +187,7 @@ func TestProp(t *testing.T) {
 			c.A = rapid.IntRange(0, clen/c.B).Draw(t, "blk")
 		case "usage":
 			c.A = int(kgen.Usage(t))
-		case "key":
+		case "key", "key-inplace":
 			c.Extra = hex.EncodeToString(kgen.Key(t, et, "otherkey"))
 			if c.Extra == c.Key {
 				t.Skip("same key")
@@ -273,6 +283,12 @@ func TestProp(t *testing.T) {
 		c = base
 		c.Tamper, c.Extra = "key", hex.EncodeToString(ref.RandomKey(j.et, kgen.DetBytes(r.Seed(), lbl+"/k2", 32)))
 		judge("enum", c, nil)
+		c.Tamper = "key-inplace"
+		judge("enum", c, nil)
+		c.Extra = hex.EncodeToString(make([]byte, ref.KeyLen(j.et)))
+		if j.et != ref.DES3 {
+			judge("enum", c, nil)
+		}
 		for _, o := range ref.ETypes {
 			if o != j.et && ref.KeyLen(o) == ref.KeyLen(j.et) {
 				c = base
